@@ -30,6 +30,8 @@ func init() {
 			{ID: "C14.R10", Text: "group names are judged as configured: defaulting never rewrites a configured group name, so the separator check sees what the operator wrote (same rule as C17.R1)", Run: c17r1},
 			{ID: "C14.R11", Text: "a reserved-key event reaches the branch that absorbs it: the listener hands every document event on under no predicate of its own (same rule as C03.R2)", Run: c03r2},
 			{ID: "C14.R12", Text: "and it gets there at once: one synchronous call chain per event from the observer to the listener, nothing parked (same rule as C03.R1)", Run: c03r1},
+			{ID: "C14.R13", Text: "nothing flags a vBucket but an acknowledgement or the absorption of a non-document event: every call of the position writer is one of the known kinds — a snapshot marker or any other new caller is not (same rule as C01.R2)", Run: c01r2},
+			{ID: "C14.R14", Text: "a dirty mark is raised only by the position writer (and built by the checkpoint's Load): no other function stores into the dirty map", Run: dirtyMarkWriters},
 			{ID: "C14.R4", Text: "getCheckpointID: result = Prefix + groupName + const + Itoa(vbID); panics ⇔ groupName contains '.'", Run: c14r4},
 		},
 	})
